@@ -30,7 +30,7 @@ def plan(tier):
             "min_nontrivial": 60,
             "min_counters": {"elements_compared": 500, "kind:lit": 300, "kind:match": 300, "kind:any": 200,
                              "kind:all": 200, "kind:anymatch": 100, "selects_checked": 50,
-                             "builtin_collection_constraints": 100}}
+                             "builtin_collection_constraints": 100, "patterns_over_a_tuple_field": 150}}
 
 
 def setup(ctx):
@@ -58,7 +58,7 @@ def gen_world(rng):
     return {"parts": parts, "boxes": boxes, "shelves": shelves}
 
 
-ELEM_TYPE = {"lid": "Part", "spare": "Part", "parts": "Part", "main": "Box", "boxes": "Box"}
+ELEM_TYPE = {"lid": "Part", "spare": "Part", "parts": "Part", "row": "Part", "main": "Box", "boxes": "Box"}
 
 
 def gen_part_pattern(rng, allow_empty=False):
@@ -124,6 +124,9 @@ def gen_box_pattern(rng, world, depth, allow_select):
     type_ = rng.choice(["Box", "Box", "FancyBox"])
     if type_ == "FancyBox" and rng.random() < 0.4:
         attrs["ribbon"] = ["lit", rng.choice("rs")]
+    if "parts" in attrs and rng.random() < 0.25:
+        # the same elements through a field declared Tuple[Part, ...]
+        attrs = {("row" if a == "parts" else a): c for a, c in attrs.items()}
     return {"type": type_, "attrs": attrs}
 
 
@@ -179,7 +182,7 @@ def make_world(w, mm):
             if shared_list is None:
                 shared_list = pl
             pl = shared_list
-        boxes.append(getattr(mm, b["cls"])(label=b["label"], lid=parts[b["lid"]], parts=pl, tags=list(b["tags"]), weight=b["weight"],
+        boxes.append(getattr(mm, b["cls"])(label=b["label"], lid=parts[b["lid"]], parts=pl, row=tuple(pl), tags=list(b["tags"]), weight=b["weight"],
                                            spare=parts[b["spare"]] if b.get("spare") is not None else None,
                                            **({"ribbon": b.get("ribbon", "")} if b["cls"] == "FancyBox" else {})))
     shelves = [mm.Shelf(code=s["code"], main=boxes[s["main"]], boxes=[boxes[i] for i in s["boxes"]]) for s in w["shelves"]]
@@ -238,14 +241,14 @@ def matches(obj, pat, mm, parts):
         v = getattr(obj, a)
         k = c[0]
         if k == "lit":
-            ok = (c[1] in v) if isinstance(v, list) else (v == c[1])
+            ok = (c[1] in v) if isinstance(v, (list, tuple)) else (v == c[1])
         elif k == "litobj":
-            ok = any(x is parts[c[1]] for x in v) if isinstance(v, list) else (v is parts[c[1]])
+            ok = any(x is parts[c[1]] for x in v) if isinstance(v, (list, tuple)) else (v is parts[c[1]])
         elif k in ("match", "select", "anymatch"):
-            if isinstance(v, list) and unconstrained(c[1], a):
+            if isinstance(v, (list, tuple)) and unconstrained(c[1], a):
                 ok = True
             else:
-                ok = any(matches(x, c[1], mm, parts) for x in v) if isinstance(v, list) else matches(v, c[1], mm, parts)
+                ok = any(matches(x, c[1], mm, parts) for x in v) if isinstance(v, (list, tuple)) else matches(v, c[1], mm, parts)
         elif k == "anylit":
             ok = any(x in c[1] for x in v)
         elif k == "alllit":
@@ -268,7 +271,7 @@ def allowed_values(o, pat, path, mm, parts):
     a = path[0]
     c = pat["attrs"][a]
     v = getattr(o, a)
-    cands = v if isinstance(v, list) else [v]
+    cands = v if isinstance(v, (list, tuple)) else [v]
     k = c[0]
     if len(path) > 1:
         allowed, must = set(), set()
@@ -280,7 +283,7 @@ def allowed_values(o, pat, path, mm, parts):
         return allowed, must
     if k == "select":
         elems = [x for x in cands if matches(x, c[1], mm, parts)]
-        if isinstance(v, list):
+        if isinstance(v, (list, tuple)):
             if unconstrained(c[1], a):
                 return {id(v)}, set()
             return {id(x) for x in elems} | {id(v)}, {id(x) for x in elems}
@@ -299,12 +302,12 @@ def any_entries(o, pat, path=(), chain=()):
     chain = chain + (id(o),)
     for a, c in pat["attrs"].items():
         v = getattr(o, a, None)
-        if c[0] in ("any", "select_any", "anymatch") and isinstance(v, list):
+        if c[0] in ("any", "select_any", "anymatch") and isinstance(v, (list, tuple)):
             out.append((path + (a,), tuple(id(x) for x in v), chain))
-        if c[0] == "anylit" and isinstance(v, list):
+        if c[0] == "anylit" and isinstance(v, (list, tuple)):
             out.append((path + (a,), tuple(v), chain))          # value-equal lists of strings collapse as well
         if c[0] in ("match", "select", "anymatch") and v is not None:
-            for x in (v if isinstance(v, list) else [v]):
+            for x in (v if isinstance(v, (list, tuple)) else [v]):
                 out.extend(any_entries(x, c[1], path + (a,), chain))
     return out
 
@@ -338,6 +341,7 @@ def run(spec, ctx):
     mm = ctx["mm"]
     C = ctx["counters"]
     parts, boxes, shelves = make_world(spec["world"], mm)
+    C["patterns_over_a_tuple_field"] += "row=" in skeleton(spec["pattern"])
     dom = boxes + parts + shelves
     pat = spec["pattern"]
     ks = kinds(pat, set())
@@ -448,6 +452,7 @@ def run(spec, ctx):
                 b.parts.pop(rng.randrange(len(b.parts)))
             elif r < 0.8:
                 b.parts.append(rng.choice(parts))
+            b.row = tuple(b.parts)
             if rng.random() < 0.3 and b.tags:
                 b.tags.pop()
             elif rng.random() < 0.3:
